@@ -132,6 +132,9 @@ impl Prop for C08 {
                     spec.isha_interval = None;
                     let d = 3e-7 * 100f64.powf(-e / 3.0);
                     spec.policy_lat = F((site.lat.0 + sgn * d).clamp(-66.0, 66.0));
+                } else if k < 30 && k >= 26 && site.lat.0.abs() <= 66.0 {
+                    // substitute latitude exactly equal to the site's own
+                    spec.policy_lat = site.lat;
                 } else if k < 26 && matches!(spec.policy, gen::P_NL_ALL | gen::P_NL_FI_ALWAYS | gen::P_NL_FI_INV) {
                     let d = 10f64.powf(e * 5.0 / 3.0 - 3.0); // 1e-8 .. 1e-3
                     spec.policy_lat = F((site.lat.0 + sgn * d).clamp(-66.0, 66.0));
